@@ -24,6 +24,7 @@ type IntV struct {
 	Lo, Hi int64
 	Bits   Layout
 	Why    string
+	ML     *MinLen
 }
 
 const (
@@ -31,6 +32,7 @@ const (
 	ikRange
 	ikBits
 	ikTop
+	ikMinLen // ML: Const + Coef·|Min(v)|
 )
 
 func CInt(n int64) IntV          { return IntV{Kind: ikLin, L: K(n)} }
@@ -47,6 +49,8 @@ func (v IntV) String() string {
 		return fmt.Sprintf("int:[%s..%s]", boundStr(v.Lo), boundStr(v.Hi))
 	case ikBits:
 		return "int:bits" + v.Bits.String()
+	case ikMinLen:
+		return "int:" + v.ML.String()
 	}
 	return "int:⊤(" + v.Why + ")"
 }
@@ -99,6 +103,17 @@ func (v IntV) Bounds(T int64) (lo, hi int64, ok bool) {
 			return 0, 0, false
 		}
 		return 0, (int64(1) << uint(w)) - 1, true
+	case ikMinLen:
+		w, ok := v.ML.Val.Width()
+		if !ok {
+			return 0, 0, false
+		}
+		maxBytes := (w + 7) / 8
+		a, b := v.ML.Const, v.ML.Const+v.ML.Coef*maxBytes
+		if a > b {
+			a, b = b, a
+		}
+		return a, b, true
 	}
 	return 0, 0, false
 }
@@ -309,6 +324,24 @@ type BytesV struct {
 	Param    *ssa.Parameter
 	Pending  ssa.Instruction // the content is the bytes read by this call iff the call returned a nil error
 	PendSrc  string
+	LenMin   *MinLen // when the length is Const + Coef·|Min(v)| (v a big integer whose minimal encoding is involved)
+	WinOf    *Obj    // the value is a window into this buffer object (writes through it change the buffer)
+	WinLo    *IntV   // start of the window (the window extends to the end of the buffer)
+}
+
+// MinLen is the symbolic length Const + Coef·|Min(v)|, |Min(v)| the length of the minimal
+// big-endian encoding of the big integer with layout Val.
+type MinLen struct {
+	Const, Coef int64
+	Sym         string
+	Val         Layout
+}
+
+func (m *MinLen) String() string {
+	if m.Coef == 1 && m.Const == 0 {
+		return "|Min" + m.Sym + "|"
+	}
+	return fmt.Sprintf("%d%+d·|Min%s|", m.Const, m.Coef, m.Sym)
 }
 
 func (b BytesV) String() string {
@@ -319,6 +352,8 @@ func (b BytesV) String() string {
 	}
 	if b.LenKnown {
 		fmt.Fprintf(&sb, "len=%v ", b.Len)
+	} else if b.LenMin != nil {
+		fmt.Fprintf(&sb, "len=%v ", b.LenMin)
 	} else {
 		sb.WriteString("len=? ")
 	}
